@@ -30,3 +30,28 @@ pub open spec fn filter_by<T>(s: Seq<T>, keep: Seq<bool>) -> Seq<T>
     else if keep.last() { filter_by(s.drop_last(), keep.drop_last()).push(s.last()) }
     else { filter_by(s.drop_last(), keep.drop_last()) }
 }
+
+/// `v.into_iter().peekable()` (R-chain) as the sequence of elements not yet yielded
+#[verifier::external_body]
+#[verifier::reject_recursive_types(T)]
+pub struct VxVecPeek<T> { it: core::iter::Peekable<std::vec::IntoIter<T>> }
+impl<T> VxVecPeek<T> {
+    pub uninterp spec fn view(&self) -> Seq<T>;
+    #[verifier::external_body]
+    pub fn peek(&mut self) -> (r: Option<&T>)
+        ensures
+            final(self)@ == old(self)@,
+            old(self)@.len() == 0 ==> r is None,
+            old(self)@.len() > 0 ==> r is Some && *r->Some_0 == old(self)@[0],
+    { unimplemented!() }
+    #[verifier::external_body]
+    pub fn next(&mut self) -> (r: Option<T>)
+        ensures
+            old(self)@.len() == 0 ==> r is None && final(self)@ == old(self)@,
+            old(self)@.len() > 0 ==> r == Some(old(self)@[0]) && final(self)@ == old(self)@.skip(1),
+    { unimplemented!() }
+}
+#[verifier::external_body]
+pub fn vx_vec_peekable<T>(v: Vec<T>) -> (r: VxVecPeek<T>)
+    ensures r@ == v@
+{ unimplemented!() }
